@@ -68,7 +68,7 @@ func runC16(t *testing.T, c simrt.Chooser, o Opts) *Out {
 		// unknown read errors on the socket while the scan is listening (first 60 % of the exit
 		// delay): each is logged and the receiver pauses briefly; the delay itself must not move and
 		// replies arriving later in the window must still be reported
-		nReadErrs = 3 + p.n("nreaderrs", 10)
+		nReadErrs = min(3+p.n("nreaderrs", 10), maxReadErrors(sc.exitDelay))
 		injectReadErrors(sc, nReadErrs)
 	}
 	out.Scenario = sc
